@@ -319,6 +319,11 @@ pub struct Driver {
     /// dead entries (key, value) that survived a maintenance run which should have purged them,
     /// with the cause signature they were reported under
     stale_dead: HashMap<(u32, u64), String>,
+    /// sparse mode: state at the last quiescent point and the ops queued since (see batch.rs)
+    batch_base: Option<(Snap, mini_moka::verif::VerifSketch)>,
+    batch_ops: Vec<crate::batch::BatchOp>,
+    batch_expect: (usize, usize),
+    batch_valid: bool,
 }
 
 fn key_of(op: &Op) -> Option<u32> {
@@ -349,6 +354,10 @@ impl Driver {
             reinserted: HashSet::new(),
             last_sync_quiescent: true,
             stale_dead: HashMap::new(),
+            batch_base: None,
+            batch_ops: Vec::new(),
+            batch_expect: (0, 0),
+            batch_valid: false,
         }
     }
 
@@ -799,6 +808,9 @@ impl Driver {
         } else {
             self.check_transition_weak(&op, &pre, &post, &truth_after, now_after);
         }
+        if is_sync && !exact && !self.opts.light {
+            self.batch_step(&op, &pre, &post, &truth_after, now_after, matches!(got, Some(Some(_))), post_quiescent, &pre_sketch);
+        }
         self.truth = truth_after;
 
         // --- quiescent point checks
@@ -917,6 +929,164 @@ impl Driver {
         // the unsync excess rule needs the previous quiescent point: be permissive after a light step
         self.allowed_excess = u64::MAX / 4;
         self.op_index += 1;
+    }
+
+    // ---- batch monitor (sparse sync placement): C12 / C13 / C03 over one queued batch ----------
+
+    #[allow(clippy::too_many_arguments)]
+    fn batch_step(&mut self, op: &Op, pre: &Snap, post: &Snap, truth_after: &Truth, now: u64, hit: bool, post_quiescent: bool, pre_sketch: &mini_moka::verif::VerifSketch) {
+        use crate::batch::{simulate, BatchOp};
+        if post_quiescent {
+            let judge = matches!(op, Op::Sync)
+                && self.batch_valid
+                && !self.batch_ops.is_empty()
+                && self.batch_base.is_some()
+                && (pre.rlen, pre.wlen) == self.batch_expect
+                && pre.entries.len() < mini_moka::verif::constants::SYNC_EVICTION_BATCH_SIZE
+                && self.batch_ops.len() < mini_moka::verif::constants::WRITE_LOG_FLUSH_POINT;
+            // the deques as they are right before this sync() must still be those of the last
+            // quiescent point: a maintenance run nested in a call (even one that found the queues
+            // empty) may have purged, evicted or enabled the popularity table in between
+            let same_deques = self.batch_base.as_ref().map(|(b, _)| {
+                b.probation.iter().map(|n| n.addr).collect::<Vec<_>>() == pre.probation.iter().map(|n| n.addr).collect::<Vec<_>>()
+                    && b.write_order.iter().map(|n| n.addr).collect::<Vec<_>>() == pre.write_order.iter().map(|n| n.addr).collect::<Vec<_>>()
+            }).unwrap_or(false);
+            if judge && same_deques {
+                let (base, _) = self.batch_base.take().unwrap();
+                let ops = std::mem::take(&mut self.batch_ops);
+                // no read was applied since the last quiescent point, so the table right before this
+                // sync() is the one the batch starts from (possibly enabled, i.e. allocated, meanwhile)
+                self.judge_batch(&base, pre_sketch, &ops, post, truth_after, now);
+            }
+            let sk = self.cut.as_ref().unwrap().sketch();
+            self.batch_base = Some((post.clone(), sk));
+            self.batch_ops.clear();
+            self.batch_expect = (0, 0);
+            self.batch_valid = true;
+            return;
+        }
+        let removed = matches!(op, Op::Invalidate { k } if pre.entry(*k).is_some());
+        match op {
+            Op::Insert { .. } => self.batch_expect.1 += 1,
+            Op::Get { .. } => self.batch_expect.0 += 1,
+            Op::Invalidate { .. } if removed => self.batch_expect.1 += 1,
+            _ => {}
+        }
+        self.batch_ops.push(BatchOp { op: *op, hit, removed });
+        if (post.rlen, post.wlen) != self.batch_expect {
+            // a maintenance run nested in a call applied part of the queue: not one batch any more
+            self.batch_valid = false;
+        }
+        let _ = simulate;
+    }
+
+    fn judge_batch(&mut self, base: &Snap, base_sketch: &mini_moka::verif::VerifSketch, ops: &[crate::batch::BatchOp], post: &Snap, truth_after: &Truth, now: u64) {
+        use crate::batch::simulate;
+        let cap = self.cfg.cap;
+        let hashes: HashMap<u32, u64> = {
+            let cut = self.cut.as_ref().unwrap();
+            let mut m = HashMap::new();
+            for e in &base.entries {
+                m.insert(e.key, cut.hash(e.key));
+            }
+            for b in ops {
+                if let Some(k) = key_of(&b.op) {
+                    m.insert(k, cut.hash(k));
+                }
+            }
+            m
+        };
+        let hash_of = |k: u32| hashes.get(&k).copied().unwrap_or(0);
+        let impl_live: BTreeSet<u32> = post
+            .entries
+            .iter()
+            .filter(|e| truth_after.may_be_visible(e.key, now) && truth_after.cur(e.key).map(|l| l.vid == e.vid).unwrap_or(false))
+            .map(|e| e.key)
+            .collect();
+        let post_keys: HashSet<u32> = post.entries.iter().map(|e| e.key).collect();
+        let mut acceptable: Vec<BTreeSet<u32>> = Vec::new();
+        let mut decisions = Vec::new();
+        let mut skipped = 0usize;
+        for limit in [Some(5usize), None] {
+            let out = simulate(cap, self.cfg.weigher, base, base_sketch, ops, &hash_of, limit);
+            if limit == Some(5) {
+                decisions = out.decisions.clone();
+                skipped = out.stale_nodes_skipped;
+            }
+            for purge in 0..3 {
+                let mut r: Vec<(u32, u64, bool)> = out
+                    .residents
+                    .iter()
+                    .map(|x| {
+                        let live = out.final_lineage.get(&x.key).copied().flatten() == Some(x.lineage) && truth_after.may_be_visible(x.key, now);
+                        (x.key, x.w, live)
+                    })
+                    .collect();
+                match purge {
+                    0 => r.retain(|x| x.2),
+                    1 => {}
+                    _ => r.retain(|x| x.2 || post_keys.contains(&x.0)),
+                }
+                if let Some(c) = cap {
+                    let total: u64 = r.iter().map(|x| x.1).sum();
+                    let excess = total.saturating_sub(c);
+                    let mut ev = 0u64;
+                    while ev < excess && !r.is_empty() {
+                        ev += r.remove(0).1;
+                    }
+                }
+                let live: BTreeSet<u32> = r.iter().filter(|x| x.2).map(|x| x.0).collect();
+                if !acceptable.contains(&live) {
+                    acceptable.push(live);
+                }
+            }
+        }
+        self.result.stats.inc("batches_judged");
+        self.result.stats.add("batch_ops_judged", ops.len() as u64);
+        if !decisions.is_empty() {
+            self.result.stats.inc("batches_with_admission_decision");
+            self.result.stats.nontrivial.insert("C13");
+            self.result.stats.nontrivial.insert("C12");
+            if decisions.iter().any(|d| d.1) {
+                self.result.stats.inc("batches_with_admission");
+            }
+        }
+        if skipped > 0 {
+            self.result.stats.inc("batches_with_stale_nodes_skipped");
+        }
+        if acceptable.contains(&impl_live) {
+            return;
+        }
+        let best = acceptable.iter().min_by_key(|l| l.symmetric_difference(&impl_live).count()).cloned().unwrap_or_default();
+        let missing: Vec<u32> = best.difference(&impl_live).copied().collect();
+        let extra: Vec<u32> = impl_live.difference(&best).copied().collect();
+        let mut props: Vec<&'static str> = Vec::new();
+        if !decisions.is_empty() {
+            props.push("C13");
+            props.push("C12");
+        }
+        if !missing.is_empty() || decisions.is_empty() {
+            props.push("C03");
+        }
+        if !extra.is_empty() && missing.is_empty() {
+            props.push("C04");
+        }
+        let text: Vec<String> = ops.iter().map(|b| b.op.to_line()).collect();
+        self.violate(
+            &props,
+            format!("batch:{}", if !decisions.is_empty() { "admission-or-victims-differ" } else { "unexplained-residents" }),
+            format!(
+                "after sync() applied the batch [{}] at t={}: live residents held = {:?}, acceptable = {:?} (missing {:?}, unexpected {:?}); residents at the last quiescent point (LRU first, accounted weight) = {:?}; admission decisions predicted = {:?}",
+                text.join("; "),
+                now,
+                impl_live,
+                acceptable.iter().map(|l| l.iter().copied().collect::<Vec<_>>()).collect::<Vec<_>>(),
+                missing,
+                extra,
+                base.probation.iter().filter_map(|n| base.entry(n.key).map(|e| (e.key, e.accounted.unwrap_or(e.weight)))).collect::<Vec<_>>(),
+                decisions
+            ),
+        );
     }
 
     /// Ends the history without a verdict and releases the cache without the end-of-history checks.
